@@ -242,6 +242,23 @@ def asan_signature(log):
     return "asan|%s|%s|%s" % (kind, acc, "<-".join("%s(%s)" % f for f in fr) or "no-repo-frame")
 
 
+_CAN_DROP = {}
+
+
+def can_drop_uid(binary):
+    """can the binary be started as uid 65534 from here? (needs root, and every directory on the way must be searchable)"""
+    if binary not in _CAN_DROP:
+        ok = False
+        if os.geteuid() == 0:
+            try:
+                r = subprocess.run([binary, "--version"], stdin=subprocess.DEVNULL, capture_output=True, timeout=60, user=65534, group=65534, extra_groups=[])
+                ok = r.returncode == 0
+            except (OSError, subprocess.SubprocessError, ValueError):
+                ok = False
+        _CAN_DROP[binary] = ok
+    return _CAN_DROP[binary]
+
+
 def run_one(args):
     s4, argv, env, watchdog = args
     t0 = time.monotonic()
@@ -317,6 +334,9 @@ def run(ctx):
             files = [c.arg for c in cs]
             files.insert(rng.randint(0, len(files)), path)
             env = core.base_env(tmpdir=dd, extra={"ASAN_OPTIONS": "halt_on_error=1:abort_on_error=0:exitcode=97:detect_leaks=0:log_path=%s/asan" % dd})
+            if unreadable and not can_drop_uid(asan):
+                ctx.count("unreadable-file faults skipped (uid 65534 cannot reach the build directory or the check does not run as root)")
+                continue
             if unreadable:
                 os.chmod(path, 0)
                 os.chmod(dd, 0o777)
